@@ -167,6 +167,11 @@ def run(ctx):
                      "oracle": "c02: the returned tree must nest operators as the documented precedence, associativity and the explicit parentheses dictate", "how_found": "stream positions"})
     for c_ in cases[:4]:
         ctx.sample({"dialect": c_[0], "input": c_[1][:200], "expected_tree": c_[2][:200]})
+    # every token sequence up to a length over small alphabets of expression tokens (keyword predicates and their NOT forms, operator layers, calls / CASE,
+    # sub-queries, windows / CAST / EXTRACT / index): the shallow, wide part of the input space, enumerated
+    import smallscope
+    n_ss = smallscope.run(ctx, ["predicates", "operators", "calls-case", "subqueries", "special-calls"], dialects=("MYSQL", "HIVE"), thorough_dialects=("MYSQL", "HIVE", "DB2"))
+    ctx.cov["rule"] += "; small-scope correspondence: every token sequence up to length 3–5 over five expression alphabets (%d requests)" % n_ss
     pfam.conclude(ctx)
 
 
